@@ -30,9 +30,13 @@ func (r *runner) hammer(a int, stop <-chan struct{}, wg *sync.WaitGroup) {
 			return
 		default:
 		}
-		lo, e0 := r.lo.Load(), r.epoch.Load()
+		ep := &r.epoch
+		if isAdmin(a) {
+			ep = &r.admEpoch
+		}
+		lo, e0 := r.lo.Load(), ep.Load()
 		ans, g, detail := r.env.get(a, "/id", probeTimeout)
-		hi, e1 := r.hi.Load(), r.epoch.Load()
+		hi, e1 := r.hi.Load(), ep.Load()
 		r.traffic.mu.Lock()
 		switch {
 		case g < 0 && (ans == ansRefused || ans == ansNoEnt):
@@ -48,7 +52,7 @@ func (r *runner) hammer(a int, stop <-chan struct{}, wg *sync.WaitGroup) {
 			r.traffic.broken++
 			r.traffic.mu.Unlock()
 			r.fail("traffic-connection-broken", fmt.Sprintf("background connection to retained address %s during load %d was accepted but not answered: %s (%s)", addrNames[a], hi, ans, detail))
-		case int64(g) < lo || int64(g) > hi:
+		case !isAdmin(a) && (int64(g) < lo || int64(g) > hi):
 			r.traffic.stale++
 			r.traffic.mu.Unlock()
 			r.fail("traffic-answered-by-dead-config", fmt.Sprintf("background connection to %s answered by config %d while only %d..%d can be alive", addrNames[a], g, lo, hi))
@@ -57,6 +61,51 @@ func (r *runner) hammer(a int, stop <-chan struct{}, wg *sync.WaitGroup) {
 			r.traffic.mu.Unlock()
 		}
 		time.Sleep(250 * time.Microsecond)
+	}
+}
+
+func (r *runner) markAdmin(k, admin int) {
+	name := "-"
+	if admin >= 0 {
+		name = addrNames[admin]
+	}
+	if r.admEpoch.Load()%2 == 0 {
+		r.admEpoch.Add(1) // the endpoint in effect is about to be shut down
+	}
+	ev := &event{kind: 'M', gen: k, mod: name, load: k}
+	r.evMu.Lock()
+	r.events = append(r.events, ev)
+	r.evMu.Unlock()
+}
+
+// waitAdminSettled waits until the replaced admin servers have shut down: one listener on the
+// admin address in effect (want, -1: none), none on the other one.
+func (r *runner) waitAdminSettled(want int) {
+	deadline := time.Now().Add(4 * time.Second)
+	for {
+		r.evMu.Lock()
+		s := r.snapshot()
+		r.evMu.Unlock()
+		ok := true
+		for _, a := range []int{adm0, adm1} {
+			n := s.pool[a]
+			if isUnix(a) {
+				n = s.ucnt[a-nTCP]
+			}
+			exp := 0
+			if a == want {
+				exp = 1
+			}
+			ok = ok && n == exp
+		}
+		if ok {
+			return
+		}
+		if time.Now().After(deadline) {
+			r.fail("old-admin-listener-never-closed", fmt.Sprintf("4s after load %d the admin listeners are %s (endpoint in effect: %d)", r.loading, s.String(), want))
+			return
+		}
+		time.Sleep(200 * time.Microsecond)
 	}
 }
 
@@ -88,12 +137,33 @@ func newRunner(e *env, sc scenario) *runner {
 	}
 	for a := 0; a < nAddr; a++ {
 		for _, c := range sc.cfgs {
-			r.used[a] = r.used[a] || c.has(a)
+			r.used[a] = r.used[a] || c.has(a) || !c.same && c.admin == a
 		}
 	}
+	r.admAddr, r.admGen = -1, -1
 	r.lo.Store(-1)
 	r.hi.Store(-1)
 	return r
+}
+
+// stableAdmin: the admin address every (real) config of the sequence uses (-1: none).
+func (sc scenario) stableAdmin() int {
+	a, n := -2, 0
+	for _, c := range sc.cfgs {
+		if c.same {
+			continue
+		}
+		n++
+		if a == -2 {
+			a = c.admin
+		} else if a != c.admin {
+			return -1
+		}
+	}
+	if n < 2 || a < 0 {
+		return -1
+	}
+	return a
 }
 
 // stableAddrs: addresses every (real) config of the sequence listens on.
@@ -124,6 +194,10 @@ func (sc scenario) stableAddrs() []int {
 
 func (r *runner) execute() {
 	_ = caddy.Stop() // clean slate: caddy's config state is process-global
+	// ... and caddy.Stop leaves the admin endpoint of the last config running: replace it by none
+	_ = caddy.Load([]byte(`{"admin":{"disabled":true,"config":{"persist":false}},"logging":{"logs":{"default":{"writer":{"output":"discard"}}}}}`), true)
+	_ = caddy.Stop()
+	r.waitAdminSettled(-1)
 	for u := range r.env.upath {
 		_ = removeIfExists(r.env.upath[u])
 	}
@@ -163,6 +237,7 @@ func (r *runner) execute() {
 		r.startTokens(k)
 		r.hi.Store(int64(k))
 		r.record('L', k, "", true)
+		r.markAdmin(k, c.admin)
 		err := caddy.Load(js, true)
 		res := "ok"
 		switch {
@@ -204,6 +279,11 @@ func (r *runner) execute() {
 		} else {
 			r.waitDrained(k)
 		}
+		r.admAddr, r.admGen = c.admin, k // replaced at the beginning of the load, kept even if the load was rejected
+		r.waitAdminSettled(r.admAddr)
+		if r.admEpoch.Load()%2 == 1 {
+			r.admEpoch.Add(1)
+		}
 		r.closeWindow()
 		r.lo.Store(int64(r.curGen))
 		r.hi.Store(int64(r.curGen))
@@ -212,6 +292,10 @@ func (r *runner) execute() {
 		if !trafficOn && r.curGen >= 0 {
 			trafficOn = true
 			for _, a := range r.sc.stableAddrs() {
+				wg.Add(1)
+				go r.hammer(a, stop, &wg)
+			}
+			if a := r.sc.stableAdmin(); a >= 0 {
 				wg.Add(1)
 				go r.hammer(a, stop, &wg)
 			}
